@@ -947,6 +947,8 @@ def build_unit(idx, vc_verify, vc_trusted, spec_files, verif_root, only_fns=None
     em.add("pub mod code {")
     em.add(MOD_USES + "use crate::base::*;")
     uses = ["crate::ax::%s" % a for a in axnames]
+    for g in re.findall(r"broadcast\s+group\s+([A-Za-z0-9_]+)", open(os.path.join(verif_root, "prelude", "base.rs")).read()):
+        uses.append("crate::base::%s" % g)
     for (f, (kind, arg, text)) in all_specs:
         if kind == "spec":
             for g in re.findall(r"broadcast\s+group\s+([A-Za-z0-9_]+)", text):
